@@ -1,5 +1,193 @@
+import Casket.Model.Hello
+import Casket.Model.Mitm
+import Casket.Model.Link
+import Casket.Model.FCGI
+import Casket.Spec.PeerBytes
 import Driver.Proto
-/- Streams of C19 (stub: not built yet). -/
+/-
+Streams of C19 (hex = hex-encoded bytes).
+  c19.hello   hex                      out = info | PANIC:<class>
+  c19.looks   hex                      out = f=? c=? e=? s=? t=? h=?  (each 0/1/P)
+  c19.seg     hex cuts                 out = <recorded, split> TAB <recorded, unsplit>
+  c19.mitm    hex cuts uahex flags     out = unchecked | checked:0 | checked:1 | PANIC:<class>
+  c19.ua      uahex namehex            out = -1 | canonical decimal
+  c19.uafuzz  uahex namehex            out = ok | PANIC:<class>
+  c19.link    hex                      out = resources
+  c19.record  hex                      out = out=<hex>;err=<hex>;fin=<eof|ueof|badver>
+  c19.pairs   klen vlen                out = ok:<wire length> | PANIC:<class>
+  c19.explore …                        out = ok | PANIC  (no model: exploration of handler entry points)
+  c19.handshake cuts uahex             out = same | differs:… | PANIC (no model: real crypto/tls handshakes, split vs unsplit)
+  info  = v=<n>;cs=<list>;cm=<hex>;ex=<list>;cu=<list>;pt=<hex>     "-" = nothing recorded
+-/
 namespace Driver.C19
-def streams : List Driver.Stream := []
+open Casket.Fault Casket.Hello Casket.Mitm Casket.PeerSpec
+
+def panicStr (f : Fault) : String := "PANIC:" ++ f.name
+
+def showInfo (i : Info) : String :=
+  s!"v={i.version};cs={Driver.showNatList i.ciphers};cm={Driver.hex i.compression};ex={Driver.showNatList i.extensions};cu={Driver.showNatList i.curves};pt={Driver.hex i.points}"
+
+def showRec : R (Option Info) → String
+  | .error f => panicStr f
+  | .ok none => "-"
+  | .ok (some i) => showInfo i
+
+/-- an observed answer as an outcome: a PANIC answer is a fault, anything else a value -/
+def observed (out : String) : R String :=
+  if out.startsWith "PANIC:index" then .error .index
+  else if out.startsWith "PANIC" then .error .slice
+  else .ok out
+
+def judgeTotal (_ : List String) (out : String) : String := totalVerdict (observed out)
+
+def helloModel : List String → String
+  | [h] => match Driver.unhex h with
+    | some bs => match parseRawClientHello bs with
+      | .ok i => showInfo i
+      | .error f => panicStr f
+    | none => "bad-case"
+  | _ => "bad-case"
+
+def flag : R Bool → String
+  | .ok true => "1"
+  | .ok false => "0"
+  | .error _ => "P"
+
+def looksModel : List String → String
+  | [h] => match Driver.unhex h with
+    | some bs => match parseRawClientHello bs with
+      | .ok i => s!"f={flag (looksLikeFirefox i)} c={flag (looksLikeChrome i)} e={flag (looksLikeEdge i)} s={flag (looksLikeSafari i)} t={flag (looksLikeTor i)} h={flag (.ok (advertisesHeartbeat i))}"
+      | .error f => panicStr f
+    | none => "bad-case"
+  | _ => "bad-case"
+
+def looksJudge (_ : List String) (out : String) : String :=
+  if out.startsWith "PANIC" then totalVerdict (observed out)
+  else if out.contains 'P' then "bad:panic:a looksLike heuristic panicked"
+  else "ok"
+
+/-- cut `bs` at the (ascending) positions `cuts` -/
+def cutAt (bs : Bytes) (cuts : List Nat) : List Bytes :=
+  let rec go (bs : Bytes) (pos : Nat) : List Nat → List Bytes
+    | [] => [bs]
+    | c :: cs => bs.take (c - pos) :: go (bs.drop (c - pos)) (max c pos) cs
+  go bs 0 cuts
+
+def segModel : List String → String
+  | [h, cs] => match Driver.unhex h, Driver.natList cs with
+    | some bs, some cuts => showRec (recorded (cutAt bs cuts)) ++ "\t" ++ showRec (recorded [bs])
+    | _, _ => "bad-case"
+  | _ => "bad-case"
+
+def segJudge (_ : List String) (out : String) : String :=
+  match out.splitOn "\t" with
+  | [a, b] => segVerdict (observed a) (observed b)
+  | _ => totalVerdict (observed out)
+
+def showVerdict : R Verdict → String
+  | .error f => panicStr f
+  | .ok .unchecked => "unchecked"
+  | .ok (.checked m) => if m then "checked:1" else "checked:0"
+  | .ok .unmodelled => "unmodelled"
+
+def mitmModel : List String → String
+  | [h, cs, ua, flags] => match Driver.unhex h, Driver.natList cs, Driver.unhex ua with
+    | some bs, some cuts, some ua =>
+      match recorded (cutAt bs cuts) with
+      | .error f => panicStr f
+      | .ok r =>
+        let fl := Driver.bits flags
+        showVerdict (serveDecision ua (fl.getD 0 false) (fl.getD 1 false) (r.getD {}))
+    | _, _, _ => "bad-case"
+  | _ => "bad-case"
+
+def stripZerosR (s : List Char) : List Char := (s.reverse.dropWhile (· == '0')).reverse
+
+/-- Go's `FormatFloat(v, 'f', -1, 64)` for the decimal `m / 10^k` with at most 15 significant digits -/
+def showDecimal (m k : Nat) : String :=
+  let ds := (toString m).toList
+  let ds := List.replicate (k + 1 - ds.length) '0' ++ ds
+  let ip := ds.take (ds.length - k)
+  let fp := stripZerosR (ds.drop (ds.length - k))
+  String.ofList (if fp.isEmpty then ip else ip ++ ['.'] ++ fp)
+
+def uaModel : List String → String
+  | [ua, name] => match Driver.unhex ua, Driver.unhex name with
+    | some ua, some name =>
+      match getVersionStr ua name with
+      | .error f => panicStr f
+      | .ok none => "-1"
+      | .ok (some s) =>
+        match classifyFloat s with
+        | .num m k => if (toString m).length ≤ 15 && k ≤ 15 then showDecimal m k else "unmodelled"
+        | .notNumber => "-1"
+        | .unmodelled => "unmodelled"
+    | _, _ => "bad-case"
+  | _ => "bad-case"
+
+def uaFuzzModel : List String → String
+  | [ua, name] => match Driver.unhex ua, Driver.unhex name with
+    | some ua, some name =>
+      match getVersionStr ua name with
+      | .error f => panicStr f
+      | .ok _ => "ok"
+    | _, _ => "bad-case"
+  | _ => "bad-case"
+
+def showLink (r : Casket.Link.Resource) : String :=
+  "uri=" ++ Driver.hex r.uri ++ "{" ++ ",".intercalate (r.params.map fun (k, v) => Driver.hex k ++ ":" ++ Driver.hex v) ++ "}"
+
+def linkModel : List String → String
+  | [h] => match Driver.unhex h with
+    | some bs => match Casket.Link.parseLinkHeader bs with
+      | .ok rs => "|".intercalate (rs.map showLink)
+      | .error f => panicStr f
+    | none => "bad-case"
+  | _ => "bad-case"
+
+open Casket.FCGI in
+def recordModel : List String → String
+  | [h] => match Driver.unhex h with
+    | some bs => match demux bs with
+      | .ok d =>
+        let fin := match d.fin with
+          | .eof => "eof"
+          | .unexpectedEOF => "ueof"
+          | .badVersion => "badver"
+        s!"out={Driver.hex d.out.flatten};err={Driver.hex d.err};fin={fin}"
+      | .error f => panicStr f
+    | none => "bad-case"
+  | _ => "bad-case"
+
+/-- the deterministic filler the harness uses for long names and values -/
+def filler (seed n : Nat) : Bytes := (List.range n).map fun i => UInt8.ofNat (97 + (seed + i) % 26)
+
+open Casket.FCGI in
+def pairsModel : List String → String
+  | [kl, vl] => match kl.toNat?, vl.toNat? with
+    | some kl, some vl =>
+      match writePairs typeParams 1 [(filler 0 kl, filler 7 vl)] with
+      | .ok w => s!"ok:{w.length}"
+      | .error f => panicStr f
+    | _, _ => "bad-case"
+  | _ => "bad-case"
+
+def streams : List Driver.Stream := [
+  { name := "c19.hello", model := helloModel, judge := judgeTotal },
+  { name := "c19.looks", model := looksModel, judge := looksJudge },
+  { name := "c19.seg", model := segModel, judge := segJudge },
+  { name := "c19.mitm", model := mitmModel, judge := judgeTotal },
+  { name := "c19.ua", model := uaModel, judge := judgeTotal },
+  { name := "c19.uafuzz", model := uaFuzzModel, judge := judgeTotal },
+  { name := "c19.link", model := linkModel, judge := judgeTotal },
+  { name := "c19.record", model := recordModel, judge := judgeTotal },
+  { name := "c19.pairs", model := pairsModel, judge := judgeTotal },
+  { name := "c19.explore", model := fun _ => "ok", judge := judgeTotal },
+  { name := "c19.handshake", model := fun _ => "same",
+    judge := fun _ out => if out == "same" then "ok"
+      else if out.startsWith "PANIC" then totalVerdict (observed out)
+      else if out.startsWith "differs" then segVerdict (α := String) (.ok "split") (.ok "whole")
+      else "bad:handshake:" ++ (out.take 80).toString }
+]
+
 end Driver.C19
